@@ -487,8 +487,9 @@ def handler_argument_subscripts(ctx, cg, ef, entries):
                         glabs = [(unparse(tt.ast), lab) for tt, lab in dom.guards_of(gg, rn) if tt.kind == 'test'] if rn is not None else []
                         guards = [gt for gt, _ in glabs]
                         from ..rules.atom import defensive_guard
-                        dead = any(lab == 'T' and 'self._TYPES' in gt and ('isinstance(self._TYPES, str)' in gt or 'self._TYPES == str' in gt or "hasattr(self._TYPES" in gt)
-                                   for gt, lab in glabs) and _types_always_lists(sm)
+                        # every _TYPES table is a list: under these facts, is the raise reachable at all?
+                        facts = {'isinstance(self._TYPES, str)': False, 'self._TYPES == str': False, "hasattr(self._TYPES, '__iter__')": True}
+                        dead = rn is not None and _types_always_lists(sm) and rn not in gg.reachable(gg.entry, edge_ok=gg.edge_filter_assuming(facts))
                         if not dead and defensive_guard(r):
                             res.assumed('R-EFF.handler-args', g_.fq, f"`{short(r.node, 40)}` is an internal shape guard of the tree infrastructure (assumed dead)", line=r.node.lineno)
                             continue
